@@ -254,6 +254,22 @@ pub fn run(tier: Tier) -> i32 {
                                             if *consumed != n {
                                                 rep.violation(&format!("C13|unknown-mandatory|consumed|tail{}", tail.len()), rank, || (format!("{}: receiver {} rejects the packet but consumes {} instead of its length {}", desc, mname, consumed, n), wit()));
                                             }
+                                            // "rejected as a whole": the drop costs the receiver nothing else. The same packet on a
+                                            // receiver where a train is pending under the SAME fragment id: every storage buffer
+                                            // is still there afterwards (free, or attached to a reassembly)
+                                            if tail.is_empty() {
+                                                let mut rxp = RxS::new(2, st, &[st]);
+                                                rxp.mem.set_ctx(CtxS { label: L3B, pt: 0x86DD, frag_id: 6, total_len: 40, pdu_len: 1, from_reuse: false, exts: vec![] }, vec![0u8; st]);
+                                                rxp.last = prior.receiver_last(l);
+                                                let before = rxp.mem.n_buffers();
+                                                let (dp, after) = step_decap(&rxp, &DefaultCrc {}, m, &input);
+                                                let handed = matches!(&dp, DecapOut::Err { handed_back: Some(_), .. }) as usize;
+                                                acc.transitions += 1;
+                                                acc.calls += 1;
+                                                if matches!(dp, DecapOut::Err { .. }) && after.mem.n_buffers() + handed != before {
+                                                    rep.violation("C13|unknown-mandatory|drop-loses-a-storage", rank, || (format!("{}: receiver {} with a train pending under the same fragment id drops the packet ({}) and ends with {} storage buffers instead of {}", desc, mname, dp.brief(), after.mem.n_buffers() + handed, before), wit()));
+                                                }
+                                            }
                                         }
                                         other => {
                                             rep.violation(&format!("C13|unknown-mandatory|not-rejected|{}", other.class()), rank, || (format!("{}: receiver {} (missing a mandatory id of the chain) answers {}", desc, mname, other.brief()), wit()));
